@@ -321,9 +321,15 @@ def guard_build_links_validated(ctx, f):
     cands = [g for g in F.fns.values() if g["crate"] == f["crate"] and g.get("name") == "build" and g.get("vis") == "Public" and "::build::" in g["path"]]
     if not cands:
         return False, "public build() not found"
-    b = cands[0]
-    body = _Body(b)
-    for n in _walk(b["hir"]):
+    b0 = cands[0]
+    search = [b0]
+    for d, _n in _hq.calls_in(b0["hir"]):
+        g = F.fns.get(d)
+        if g is not None and g["crate"] == b0["crate"] and g["kind"] != "Closure" and g not in search and not g.get("name", "").startswith("handle_"):
+            search.append(g)
+    for b in search:
+      body = _Body(b)
+      for n in _walk(b["hir"]):
         if n.get("k") != "If":
             continue
         cond = n["cond"]
@@ -334,17 +340,17 @@ def guard_build_links_validated(ctx, f):
                 names = set()
                 for side in ("l", "r"):
                     for o in body.origins(m[side]):
-                        if o.get("k") == "Param":
-                            names.add("param%d" % o["index"])
+                        if o.get("k") == "Param" and "usize" == (o.get("ty") or ""):
+                            names.add("index-param")
                         if o.get("k") == "MethodCall" and o.get("m") == "len":
                             names.add("len")
-                if "param0" in names and "len" in names:
+                if "index-param" in names and "len" in names:
                     root_cmp = True
             if m.get("k") == "MethodCall" and m.get("m") in ("get_left", "get_right"):
                 links.add(m["m"])
         errs = any((_hq.callee(x) or "").endswith("::Err") for x in _walk(n["then"]) if x.get("k") == "Call")
         if root_cmp and links == {"get_left", "get_right"} and errs:
-            return True, "build() checks parse_root and every get_left()/get_right() against parse_tree.len() and returns Err (%s)" % loc(n)
+            return True, "%s checks the root index and every get_left()/get_right() against the node count and returns Err (%s)" % (b.get("name"), loc(n))
     return False, "build() no longer validates parse_root and the left/right links against parse_tree.len() before walking the tree"
 
 
@@ -367,6 +373,25 @@ def guard_lexer_whitespace_ascii(ctx, f):
     if not good:
         return False, "no is_ascii_whitespace classification found in the lexer"
     return True, "whitespace classification uses is_ascii_whitespace / ASCII literals only"
+
+
+def _clamps(expr, start_l):
+    """Does expr bound a value from below by another (`.max(x)`, `cmp::max(a, b)`, `.clamp(lo, hi)`, or an `if a < b`)?"""
+    for m in _walk(expr):
+        k = m.get("k")
+        if k == "MethodCall" and m.get("m") in ("max", "clamp") and m["args"]:
+            if start_l is None or _hq.local_of(m["args"][0]) == start_l:
+                return True
+        if k == "Call" and (_hq.callee(m) or "") in ("core::cmp::max", "core::cmp::Ord::max") and len(m.get("args", [])) == 2:
+            if start_l is None or start_l in (_hq.local_of(m["args"][0]), _hq.local_of(m["args"][1])):
+                return True
+        if k == "If":
+            for c in _walk(m["cond"]):
+                if c.get("k") == "Binary" and c.get("op") in ("<", "<=", ">", ">="):
+                    ls = (_hq.local_of(c["l"]), _hq.local_of(c["r"]))
+                    if start_l is None or start_l in ls:
+                        return True
+    return False
 
 
 def _range_end_clamped(F, g, depth=0):
@@ -394,10 +419,8 @@ def _range_end_clamped(F, g, depth=0):
         # direct: end local defined through .max(start)
         end_e = fields["end"]
         for d in ([end_e] + [x for x in body.defs.get(_hq.local_of(end_e), []) if isinstance(x, dict)]):
-            for m in _walk(d):
-                if m.get("k") == "MethodCall" and m.get("m") == "max" and m["args"]:
-                    if _hq.local_of(m["args"][0]) == start_l or start_l is None:
-                        clamped = True
+            if _clamps(d, start_l):
+                clamped = True
         if not clamped:
             # (start, end) destructured from a helper call: check the helper returns a clamped pair
             for d in body.defs.get(_hq.local_of(end_e), []):
@@ -405,9 +428,8 @@ def _range_end_clamped(F, g, depth=0):
                     cd = _hq.callee(d["of"])
                     h = F.fns.get(cd) if cd else None
                     if h is not None and depth < 2:
-                        for m in _walk(h["hir"]):
-                            if m.get("k") == "MethodCall" and m.get("m") == "max":
-                                clamped = True
+                        if _clamps(h["hir"], None):
+                            clamped = True
         if not clamped:
             ok_all = False
             why.append(loc(n))
